@@ -294,6 +294,8 @@ class GridWeighted(Grid):
             self._weights = [float(val) for val in value]
         else:
             raise TypeError("The input should be a list, tuple or a single int, float value")
+        # Weighted grid points must be regenerated with the new weights
+        self._cache['gridptsw'] = []
 
     def reset(self):
         """ Resets the grid. """
@@ -317,12 +319,14 @@ class GridWeighted(Grid):
 
         # Start adding weights, if not cached
         if not self._cache['gridptsw']:
-            for idx, cols in enumerate(self._grid_points):
+            idx = 0
+            for cols in self._grid_points:
                 weighted_gp_row = []
                 for row in cols:
                     temp = [r * self._weights[idx] for r in row]
                     temp.append(self._weights[idx])
                     weighted_gp_row.append(temp)
+                    idx += 1
                 self._cache['gridptsw'].append(weighted_gp_row)
 
         return self._cache['gridptsw']
